@@ -40,6 +40,10 @@ static std::string many_rule()
   std::string r = "rule many { strings:";
   for (int i = 0; i < 69; i++) r += strf(" $s%02d = \"q%02dzq\"", i, i);
   r += " $hot = \"\\x1f\" condition: any of them }\n";
+  // 70 small rules whose verdicts vary with the data, so that per-rule state
+  // beyond the first 64 rules is exercised
+  for (int i = 0; i < 70; i++)
+    r += strf("rule fill_%02d { condition: filesize %% 5 == %d or uint8(%d) == 0x61 }\n", i, i % 5, i % 4);
   return r;
 }
 
